@@ -17,6 +17,39 @@ func init() {
 	cmds["histdrv"] = histDrvCmd
 	cmds["histq"] = histQCmd
 	cmds["crash"] = crashCmd
+	cmds["savedrv"] = func(args []string) int {
+		fs := flag.NewFlagSet("savedrv", flag.ExitOnError)
+		dags := fs.String("dags", "", "dags dir")
+		name := fs.String("name", "x", "dag name")
+		text := fs.String("text", "B", "text id")
+		fs.Parse(args)
+		log.SetOutput(io.Discard)
+		rig.SaveDriver(*dags, *name, *text)
+		return 0
+	}
+	cmds["savecrash"] = func(args []string) int {
+		fs := flag.NewFlagSet("savecrash", flag.ExitOnError)
+		out := fs.String("out", "savecrash.ndjson", "records")
+		fs.Parse(args)
+		log.SetOutput(io.Discard)
+		base, _ := os.MkdirTemp("", "vh-save-")
+		defer os.RemoveAll(base)
+		self, _ := os.Executable()
+		of, err := os.Create(*out)
+		if err != nil {
+			fmt.Fprintln(os.Stderr, "INFRA", err)
+			return 2
+		}
+		defer of.Close()
+		enc := json.NewEncoder(of)
+		n := 0
+		if err := rig.SaveCrashSweep(self, base, func(e rig.Ev) { enc.Encode(e); n++ }); err != nil {
+			fmt.Fprintln(os.Stderr, "INFRA", err)
+			return 2
+		}
+		fmt.Printf("{\"records\": %d}\n", n)
+		return 0
+	}
 }
 
 // vh histdrv: the child that executes the crash part of a scenario (traced, killed by the supervisor)
